@@ -2997,6 +2997,9 @@ private:
             res = custom_lexer.match(opts, ps.current_sp, ps.current_it, ps.buffer_end, ps.error_stream);
         }
 
+        if (res.len == 0)
+            res.term_idx = uninitialized16;
+
         ps.current_term_idx = res.term_idx;
         ps.current_end_it = ps.current_it + res.len;
 
